@@ -348,6 +348,8 @@ def summarize(ev, upto):
     rel_age, in_reload = -1, False
     for e in ev[:upto + 1]:
         n, p, a, b, now = e[0], e[1], e[2], e[3], e[4]
+        if n == "kill" and b == 1 and p in ps and p in W:
+            ps[p]["esrch"] = True
         if n == "fork":
             ps[p] = {"st": "run", "hb": now, "nb": 0, "sent": set(), "ign": False, "ghost": False, "hang": None}
         elif n == "assign":
@@ -396,6 +398,8 @@ def signature(prop, tr, verdict, step):
             x = ps.get(p)
             if x is None:
                 cats.add("unknown-tracked")
+            elif x.get("esrch"):
+                cats.add("dead-tracked,kept-after-ESRCH")
             elif x["ghost"]:
                 cats.add("ghost(reaped-before-assign),never-beaten" if x["nb"] == 0 else "ghost,beaten")
             elif x["st"] == "zomb":
@@ -420,7 +424,7 @@ def signature(prop, tr, verdict, step):
     elif verdict == "BootFailureHalts":
         parts = [e[0], ("status=%d" % e[2]) if e[0] in ("exit", "escape") else "",
                  "exc=" + tr["meta"].get("exc", "") if e[0] == "escape" else ""]
-    elif verdict in ("MurderOnlyStale", "OldOnlyTermed", "RetireIsOldest", "TermIsGraceful", "KillBeforeDeadline",
+    elif verdict in ("MurderOnlyStale", "OldOnlyTermed", "RetireIsOldest", "AbortBeforeKill", "TermIsGraceful", "KillBeforeDeadline",
                      "QuickUsesQuit", "SpawnBeforeRetire", "KillOnlyChildren"):
         x = ps.get(e[1])
         parts = ["sig=%d" % e[2]]
@@ -514,6 +518,8 @@ def execute(specs, line_points=False):
 
 def common(ctx, prop, fam, design, deviations, sim_kinds):
     t0 = time.time()
+    if os.environ.get("ARBITER_LIGHT"):          # development aid: traces + monitor only
+        design, deviations, sim_kinds = [], [], []
     futs = run_models(ctx, design, deviations)
     specs = fam(ctx)
     runs = execute(specs)
